@@ -98,7 +98,8 @@ CHECKS["C03"] = (
     "checked by vlib/refcheck.py against the harness's own type terms. Operations whose conforming twin succeeds are re-issued with "
     "exactly one slot made non-conforming and must raise TypeError/ValueError or leave a conforming state. Directed: non-conforming "
     "defaults restored by del/reset/invalidation; closed and open bounded floats as attribute, list element and dict value x 18 routes x "
-    "{NaN, +-inf, just outside} judged by the bound written as plain comparisons.",
+    "{NaN, +-inf, just outside} judged by the bound written as plain comparisons; fixed-length and variadic tuple annotations x 12 routes "
+    "x {too short, too long, permuted, ill-typed, list for tuple}.",
     "Trusted: reference checker and type terms in vlib/classgen.py. Direct mutation of contained containers is out of scope.",
     "DESIGN.md §3 C03",
 )
@@ -147,7 +148,8 @@ CHECKS["C05"] = (
     "back at default, everything else untouched) or by running two documented-equivalent formulations on two replayed copies of the same "
     "state and comparing outcome class, resulting state and result identity. Directed: constant whole-value transforms; multi-change "
     "calls (transform/update, top-level and nested keyword forms) on a chain of invalidated_by attributes must equal the single-attribute "
-    "helpers applied in keyword order, for every ordered selection of 2-3 names, copy and in place, eager and lazy.",
+    "helpers applied in keyword order, for every ordered selection of 2-3 names, copy and in place, eager and lazy; the preparer applied on "
+    "every storing route is the _prepare_<a> of the receiver's class (overridden by a plain/decorated subclass, or inherited).",
     "Trusted: the model in checks/c05.py (pure idempotent preparers); replay determinism. UNSPECIFIED forms (DESIGN.md §4) are counted, not judged.",
     "DESIGN.md §3 C05",
 )
